@@ -516,6 +516,12 @@ FIXED += [
      json.loads('{"mode": "directed", "result": "v16", "steps": [{"out": "v0", "table": "t1", "verb": "source"}, {"in": "v0", "items": [["x", ["col", {"n": "id", "v": "v0"}]], ["a_t1_1", ["lit", false]]], "out": "v1", "verb": "mutate"}, {"cols": [{"c": "x"}], "in": "v1", "out": "v3", "verb": "drop"}, {"in": "v3", "items": [["h1", ["col", {"n": "x", "v": "v1"}]], ["b_r", ["col", {"n": "a_t1_1", "v": "v1"}]]], "out": "v5", "verb": "mutate"}, {"out": "v6", "table": "t0", "verb": "source"}, {"in": "v6", "items": [["b", ["col", {"c": "id"}]], ["a", ["col", {"c": "b"}]], ["d", ["lit", "."]], ["h1", ["lit", 6.875, "float64"]], ["b_r", ["lit", true]]], "out": "v8", "verb": "mutate"}, {"cols": [{"c": "id"}, {"c": "b"}, {"c": "d"}, {"c": "h1"}, {"c": "c"}, {"c": "a"}, {"c": "b_r"}], "in": "v8", "out": "v9", "verb": "select"}, {"in": "v5", "items": [["a_t1_1", ["lit", 1]]], "out": "v10", "verb": "mutate"}, {"in": "v9", "items": [["a_t1_1", ["lit", 2]]], "out": "v11", "verb": "mutate"}, {"distinct": false, "in": "v10", "out": "v12", "right": "v11", "verb": "union"}, {"add": false, "cols": [{"n": "c", "v": "v1"}], "in": "v12", "out": "v15", "verb": "group_by"}, {"in": "v15", "items": [["p", ["fn", "max", [["col", {"n": "h1", "v": "v5"}]], {"filter": [["col", {"n": "a", "v": "v0"}]]}]]], "out": "v16", "verb": "summarize"}], "tables": [{"cols": [["id", "int64"], ["b", "bool"], ["d", "datetime"], ["k", "datetime"], ["c", "datetime"], ["x", "int64"]], "name": "t0", "rows": [[8, true, {"$dt": "1948-12-02T04:23:25"}, {"$dt": "2000-01-01T00:00:00"}, {"$dt": "1970-01-01T00:00:00"}, 3]]}, {"cols": [["id", "int64"], ["c", "datetime"], ["b", "int64"], ["a", "bool"], ["d", "str"]], "name": "t1", "rows": []}]}')),
 ]
 
+FIXED += [
+    ('F72-floor-ceil-int', 'C12', 'floor / ceil of an integer expression return a float on every backend',
+     'floor(<Int expression>) has the static type Float (implicit conversion) but Polars and SQLite returned an integer column',
+     json.loads('{"result": "v1", "steps": [{"out": "v0", "table": "t0", "verb": "source"}, {"in": "v0", "items": [["b_r", ["fn", "floor", [["fn", "abs", [["fn", "neg", [["fn", "fill_null", [["col", {"n": "id", "v": "v0"}], ["col", {"n": "id", "v": "v0"}]], {}]], {}]], {}]], {}]]], "out": "v1", "verb": "mutate"}], "tables": [{"cols": [["id", "int64"], ["b", "uint16"], ["x", "bool"], ["d", "float64"]], "name": "t0", "rows": []}], "validate": "check"}')),
+]
+
 
 def main():
     log = subprocess.run(["git", "-C", "/repo", "log", "--format=%h %s"], capture_output=True, text=True).stdout.splitlines()
